@@ -27,7 +27,7 @@ def run(prop: str, tier: str) -> int:
         idx = get_index()
         rep = Report(prop, tier)
         explanation = mod.check(idx, rep, tier)
-        if tier == "thorough" and hasattr(mod, "selftest"):
+        if tier == "thorough":
             from . import selftest
 
             selftest.run_for(prop, mod, rep)
